@@ -21,5 +21,8 @@ def run(ctx):
     S.r62_registries(ctx, sc)
     S.r63_reset_completeness(ctx, sc)
     S.r64_config_containers(ctx, sc)
+    # "the replication start" the clock is reset to, and the warm-up time, are what the replication object reports (shared rule with C02 / C03 / C11)
+    ctx.uses('experiment')
+    S.replication_frame(ctx, 'R6.6')
     # replications are chained from END_REPLICATION listeners: the end must be announced last (shared rule with C04)
     S.r43_notifications(ctx, sc)
